@@ -228,6 +228,9 @@ func (intp *Interpreter) executeOne(obj Object, execProc bool) error {
 		intp.Stack = append(intp.Stack[:a], proc)
 		return nil
 	} else if obj == Operator("{") {
+		if len(intp.procStart) >= maxProcNesting {
+			return intp.e(eLimitcheck, "procedures nested too deeply")
+		}
 		intp.procStart = append(intp.procStart, len(intp.Stack))
 		return nil
 	} else if len(intp.procStart) > 0 {
@@ -419,5 +422,6 @@ const (
 	maxDictStackDepth    = 20
 	maxExecStackDepth    = 100
 	maxOperandStackDepth = 500
+	maxProcNesting       = 1000
 	maxStringSize        = 65536
 )
